@@ -102,6 +102,19 @@ func (g *Gen) genFrozen(n int) error {
 	return nil
 }
 
+// vecOfDoc returns the first vector of document d in the given vector field, if any.
+func vecOfDoc(b *BatchSpec, d int, field string) []int {
+	if d < 0 || d >= len(b.Docs) {
+		return nil
+	}
+	for _, f := range b.Docs[d].Fields {
+		if f.Kind == "vec" && f.Name == field && len(f.Vec) >= f.Dim && f.Dim > 0 {
+			return f.Vec[:f.Dim]
+		}
+	}
+	return nil
+}
+
 func (g *Gen) vecLight(seg string) {
 	if !g.vectors {
 		return
@@ -227,6 +240,28 @@ func (g *Gen) genC14(n int) error {
 						g.emit("vsearch %s q=%s k=%d", h, g.randQuery(2), 1+g.r.Intn(8))
 						g.emit("vsearch %s q=%s k=%d elig=%s", h, g.randQuery(2), 1+g.r.Intn(8), g.liveSubset(len(b.Docs), ex, 1))
 					}
+					// eligible = a prefix of the live documents (more than half of them); queries sit exactly on
+					// vectors of documents beyond the prefix and inside it
+					nd := len(b.Docs)
+					cut := nd*6/10 + g.r.Intn(nd*3/10)
+					var pre []int
+					exset := map[string]bool{}
+					if ex != "nil" && ex != "-" {
+						for _, x := range strings.Split(ex, ",") {
+							exset[x] = true
+						}
+					}
+					for d := 0; d < cut; d++ {
+						if !exset[fmt.Sprint(d)] {
+							pre = append(pre, d)
+						}
+					}
+					for _, d := range []int{nd - 1, nd - 2, cut, cut + 1, cut / 2, 0} {
+						if v := vecOfDoc(b, d, fn); v != nil {
+							g.emit("vsearch %s q=%s k=%d elig=%s", h, intList(v), 1+g.r.Intn(3), intList(pre))
+							g.emit("vsearch %s q=%s k=1", h, intList(v))
+						}
+					}
 					g.emit("vclose %s", h)
 				}
 				g.emit("vstats %s", seg)
@@ -243,6 +278,45 @@ func (g *Gen) genC14(n int) error {
 	return nil
 }
 
+// bigVecMerge: one input with a clustered index (>= 1000 vectors) merged with deletions;
+// queries sit exactly on vectors of deleted and of surviving documents.
+func (g *Gen) bigVecMerge() {
+	g.setMode()
+	cfg := g.vecCfg()
+	cfg.minDocs, cfg.maxDocs = 520, 600
+	cfg.maxFields = 0
+	cfg.vecOne = true
+	b := g.randBatch(g.fresh("b"), cfg)
+	g.emitBatch(b)
+	s := g.fresh("s")
+	g.emit("build %s %s", s, b.Name)
+	g.newBuilt(s, b)
+	nd := len(b.Docs)
+	var dropped []int
+	for d := 0; d < nd; d++ {
+		if d < 10 || g.chance(0.1) {
+			dropped = append(dropped, d)
+		}
+	}
+	f := g.fresh("f")
+	g.emit("merge %s segs=%s drops=%s", f, s, intList(dropped))
+	m := g.fresh("m")
+	g.emit("open %s %s", m, f)
+	g.emit("vstats %s", m)
+	h := g.fresh("h")
+	g.emit("vopen %s %s vecA filt=0 ex=nil", h, m)
+	for _, d := range []int{0, 3, 9, 10, 11, nd / 2, nd - 1} {
+		if v := vecOfDoc(b, d, "vecA"); v != nil {
+			g.emit("vsearch %s q=%s k=1", h, intList(v))
+			g.emit("vsearch %s q=%s k=5", h, intList(v))
+		}
+	}
+	g.emit("vclose %s", h)
+	g.emit("close %s", m)
+	g.emit("close %s", s)
+	g.st("vec.bigmerge")
+}
+
 func (g *Gen) genC15(n int) error {
 	if n == 0 {
 		n = g.tierN(30, 500)
@@ -250,6 +324,10 @@ func (g *Gen) genC15(n int) error {
 	for i := 0; i < n; i++ {
 		g.emit("note case %d", i)
 		g.emit("vreset")
+		if i%20 == 7 {
+			g.bigVecMerge()
+			continue
+		}
 		depth := 1 + g.r.Intn(3)
 		var opened []string
 		g.disjoint = true
